@@ -194,6 +194,12 @@ class ExprMixin:
 
     def same(self, st, a, b, node=None):
         """python `is`"""
+        def is_false(v):
+            return isinstance(v, VBool) and z3.is_false(z3.simplify(v.t))
+        for x, y in ((a, b), (b, a)):
+            if isinstance(x, VOpt) and x.inner[0] in ('list', 'dict') and is_false(y) and getattr(self.reg, 'false_as_none', None):
+                # a field declared `container | False` is modelled as an optional container, None standing for False
+                return x.is_none()
         if isinstance(a, VOpt) or isinstance(b, VOpt) or isinstance(a, VNone) or isinstance(b, VNone):
             return self.eq(st, a, b, node)
         if isinstance(a, (VInt, VBool)) and isinstance(b, (VInt, VBool)):
